@@ -85,6 +85,9 @@ func init() {
 				e1run("list-skew-n3-d4", "list", 3, 4, "mid", o, nil, "skew", 0),
 				e1run("docarr-skew-n3-d4", "doc", 3, 4, "arr", o, nil, "skew", 0),
 				e1run("map-skew-n3-d4", "map", 3, 4, "", o, nil, "skew", 0),
+				e1run("map-tomb-n3-d4", "map", 3, 4, "", o, nil, "tomb", 0),
+				e1run("list-tomb-n2-d4", "list", 2, 4, "mid", o, nil, "tomb", 0),
+				e1run("doc-tomb-n2-d3", "doc", 2, 3, "", o, nil, "tomb", 0),
 				e1runSP("doc-live-n2-d2-tx", "doc", 2, 2, "tx", o, 1, 0, "live"), // failed transactions (rollback + replay) inside the history
 				e1runSP("list-live-n2-d2-tx", "list", 2, 2, "tx", o, 1, 0, "live"),
 			}
@@ -133,10 +136,14 @@ func init() {
 				e1run("doc-n2-d4", "doc", 2, 4, "c02", o, nil, "", 0),
 				e1run("list-skew-n3-d4", "list", 3, 4, "mid", o, nil, "skew", 0),
 				e1run("map-skew-n3-d4", "map", 3, 4, "", o, nil, "skew", 0),
+				e1run("map-tomb-n3-d4", "map", 3, 4, "", o, nil, "tomb", 0),
+				e1run("list-tomb-n2-d4", "list", 2, 4, "mid", o, nil, "tomb", 0),
 			}
 		} else {
 			p.BudgetS = 3300
 			p.Runs = []Run{
+				e1run("map-tomb-n3-d5", "map", 3, 5, "", o, nil, "tomb", 600000),
+				e1run("list-tomb-n3-d4", "list", 3, 4, "mid", o, nil, "tomb", 600000),
 				e1run("counter-n3-d6", "counter", 3, 6, "rich", o, nil, "", 0),
 				e1run("counter-n4-d4", "counter", 4, 4, "", o, nil, "", 0),
 				e1run("map-n2-d7", "map", 2, 7, "rich", o, nil, "", 600000),
@@ -172,11 +179,15 @@ func init() {
 				e1run("list-skew-n3-d4", "list", 3, 4, "mid", o, nil, "skew", 0),
 				e1run("docarr-skew-n3-d4", "doc", 3, 4, "arr", o, nil, "skew", 0),
 				e1run("docarr-cbatch-live-n2-d3", "doc", 2, 3, "arr cbatch", o, nil, "live", 0),
+				e1run("list-tomb-n2-d4", "list", 2, 4, "mid batch", o, nil, "tomb", 0),
+				e1run("docarr-tomb-n2-d3", "doc", 2, 3, "arr", o, nil, "tomb", 0),
 			}
 		} else {
 			p.BudgetS = 3300
 			p.Runs = []Run{
 				e1run("docarr-cbatch-live-n2-d4", "doc", 2, 4, "arr cbatch", o, nil, "live", 600000),
+				e1run("list-tomb-n3-d4", "list", 3, 4, "mid", o, nil, "tomb", 600000),
+				e1run("docarr-tomb-n2-d4", "doc", 2, 4, "arr", o, nil, "tomb", 600000),
 				e1run("list-n2-d6", "list", 2, 6, "batch", o, nil, "", 600000),
 				e1run("list-n3-d5", "list", 3, 5, "", o, nil, "", 600000),
 				e1run("list-n4-d4", "list", 4, 4, "", o, nil, "", 600000),
@@ -259,6 +270,9 @@ func init() {
 				e1runSP("list-live-n2-d4", "list", 2, 4, "", o, 1, 0, "live"),
 				e1runSP("docarr-live-n2-d4", "doc", 2, 4, "arr", o, 1, 0, "live"),
 				e1runSP("map-live-n2-d4", "map", 2, 4, "", o, 1, 0, "live"),
+				e1runSP("list-tomb-n2-d3", "list", 2, 3, "mid", o, 1, 0, "tomb"),
+				e1runSP("doc-tomb-n2-d3", "doc", 2, 3, "", o, 1, 0, "tomb"),
+				e1runSP("map-tomb-n2-d4", "map", 2, 4, "", o, 1, 0, "tomb"),
 			}
 		} else {
 			p.BudgetS = 3300
